@@ -26,7 +26,7 @@ COMBOS = [("Smooth", "UnitSquare"), ("Smooth", "PiSquare"), ("Singular", "UnitSq
 CFG_M = "CONSTANTS MaxIter = 2\nSPECIFICATION Spec\nINVARIANT DefaultsRun\nINVARIANT ResidualAfterSolve\nINVARIANT RejectedFailEarly\nINVARIANT ProtocolFixed\nINVARIANT ProtocolPrefix\nCHECK_DEADLOCK FALSE\n"
 CFG_D = "CONSTANTS MaxIter = 1\nSPECIFICATION Spec\nINVARIANT AnyFlagsRun\nCHECK_DEADLOCK FALSE\n"
 CFG_S = ("CONSTANTS MaxRuns = 3\nKeyHasProblem = TRUE\nInlineAtStart = TRUE\nDomains = {\"UnitSquare\", \"LShape\"}\nQuads <- QuadSet\n"
-         "SPECIFICATION Spec\nINVARIANT OwnData\nINVARIANT OwnEstimates\nINVARIANT NoForeignFile\nCHECK_DEADLOCK FALSE\n")
+         "SPECIFICATION Spec\nINVARIANT OwnData\nINVARIANT OwnEstimates\nINVARIANT FilesServeAllReaders\nINVARIANT NoForeignFile\nCHECK_DEADLOCK FALSE\n")
 MC_S = "---- MODULE MCSessions ----\nEXTENDS Sessions\nQuadSet == {<<5, \"3_5_5\">>, <<3, \"3_5_5\">>, <<5, \"1_3_3\">>}\n====\n"
 CFG_T = "CONSTANTS MaxIter = 1\nSPECIFICATION TSpec\nINVARIANT Report\nPOSTCONDITION Done\nCHECK_DEADLOCK FALSE\n"
 
@@ -82,6 +82,7 @@ def run(prop, tier, seed):
                      ("Dirichlet", "LShape", 1, "Singular"), ("MildSingular", "PiSquare", 1, "Smooth")]
     for p, d, exact, prior in sessions:
         jobs.append(("session", p, d, exact, prior))
+    CFG_S = globals()["CFG_S"] if not quick else globals()["CFG_S"].replace("MaxRuns = 3", "MaxRuns = 2")
     rs = tlc.run_tlc("MCSessions", CFG_S, timeout=900, aux_files={"MCSessions.tla": MC_S})
     model["sessions_tlc"] = rs.stats()
     if rs.machinery_error:
